@@ -25,8 +25,8 @@ type Obs struct {
 	// SourceAfter (publish cases, run one at a time per path): the source of the path after the exchange.
 	SourceAfter *e2elib.Ref `json:"sourceAfter,omitempty"`
 	// Auth: per attached session id, the authentications the protocol server requested for that id.
-	Auth         map[string][]core.VerifC03EAuthRec `json:"auth,omitempty"`
-	Tries        int                                `json:"tries"`
+	Auth  map[string][]core.VerifC03EAuthRec `json:"auth,omitempty"`
+	Tries int                                `json:"tries"`
 	// wall-clock seconds of connect / observe / teardown (diagnostics only)
 	ConnS, ObsS, TearS float64
 	HarnessError       string `json:"harness_error,omitempty"`
